@@ -345,7 +345,7 @@ def cases(tier, seed):
                 texts = _texts_for(k, not quick)
                 if quick:
                     stride = (1 if first else 3) * (3 if ver == "v2" else 1)
-                    texts = [x for j, x in enumerate(texts) if (x[0].startswith("taint") and not x[0].startswith("taintw") and (first or x[0].startswith("tainti"))) or (not x[0].startswith("taint") and (j + seed) % stride == 0)]
+                    texts = [x for j, x in enumerate(texts) if (x[0].startswith("taint") and (not x[0].startswith("taintw") or ver == "v2") and (first or x[0].startswith("tainti"))) or (not x[0].startswith("taint") and (j + seed) % stride == 0)]
                 for origin, text, markers in texts:
                     i += 1
                     yield {"id": i, "mode": mode, "ttypes": [tt], "pos": p, "kind": k, "origin": origin, "text": text, "markers": markers}
@@ -579,7 +579,7 @@ def play(app, case, cid):
     return out
 
 
-def judge_reply(reply, exc, markers, failed, llm_call_exception):
+def judge_reply(reply, exc, markers, failed, llm_call_exception, literal=None):
     """The oracle. Returns None or (mechanism, detail)."""
     if exc is not None:
         if isinstance(exc, llm_call_exception):
@@ -596,6 +596,10 @@ def judge_reply(reply, exc, markers, failed, llm_call_exception):
         for m in markers:
             if m in c:
                 return ("taint-evaluated", m)
+        if literal and "The value is " in c and " ok" in c and ("The value is %s ok" % literal) not in c:
+            # the carrier sentence proves the LLM's message text was delivered; what stands between its two halves must be
+            # the LLM's characters, not a rewritten form of them
+            return ("message-text-not-literal", "expected the literal %r inside %r" % (literal, c[:200]))
     # A crash of an LLM post-processing action that the dispatcher contains (the turn ends with the well-formed
     # "internal error" message) satisfies the statement; it is counted as an observation
     # (`contained_postprocessing_crashes`, `crash_<action>_<exception>`), not judged.
@@ -626,7 +630,10 @@ def _run(app, case, cid):
     turns = play(app, case, cid)
     problem = None
     for t, (reply, exc, failed) in enumerate(turns):
-        v = judge_reply(reply, exc, case["markers"], failed, _W["LLMCallException"])
+        lit = None
+        if case["origin"].startswith("taintw"):
+            lit = next((tx for tx, _mk_ in TAINT if ("The value is %s ok" % tx) in case["text"]), None)
+        v = judge_reply(reply, exc, case["markers"], failed, _W["LLMCallException"], literal=lit)
         if v:
             mech, det = v
             if mech in ("raised", "nonterminating"):
@@ -783,6 +790,8 @@ def run_case(case):
 
 def classify(r):
     mode, kind, mech, what = r.get("mode"), r.get("kind"), r.get("mech", "?"), r.get("what")
+    if what == "message-text-not-literal" and str(mode).startswith("v2"):
+        return "v2-dollar-name-in-message-text-rewritten"
     if what == "taint-evaluated" and str(mode).startswith("v2") and kind in V2_CODE_KINDS and r.get("brace_expr_in_text"):
         return "v2-llm-bot-say-string-evaluated"
     if mode == "v1_multi" and kind == "steps" and what == "raised" and r.get("in_compute_next_steps") and r.get("standalone_parse_ok"):
